@@ -79,13 +79,16 @@ pub fn collect(specs: &[Spec], depth_deep: bool, extra_presentations: u64) -> (V
         let before = out.len();
         let mut add_with = |gr: Grammar, pres: Presentation, out: &mut Vec<RealCase>, n: &mut u64| {
             *n += 1;
+            // deep enough for the longest right-hand side (long fieldsets have a single viable path, so this is cheap)
+            let longest = gr.prods.iter().map(|p| p.1.len()).max().unwrap_or(0);
+            let depth = if gr.t > 8 { crate::pda::depth_for(gr.t, depth_deep) } else { 6.max(longest + 2) };
             let case = Case::new(gr, with_debug(pres));
             if let Gen::Ok(text) = generate(&case.rendered.source) {
-                out.push(RealCase { case, text, depth: 6 });
+                out.push(RealCase { case, text, depth });
             }
         };
         if let Spec::PSpace { max_fields, recursion } = spec {
-            for p in crate::pspace::patterns(*max_fields, *recursion) {
+            for p in crate::pspace::patterns(*max_fields, *recursion).into_iter().chain(crate::pspace::long_patterns(crate::pspace::LONG_MAX)) {
                 let (gr, pres, _) = crate::pspace::build(&p);
                 add_with(gr, pres, &mut out, &mut n);
             }
@@ -122,6 +125,16 @@ pub fn collect(specs: &[Spec], depth_deep: bool, extra_presentations: u64) -> (V
                 }
             }
             Spec::PSpace { .. } => unreachable!(),
+            Spec::Files { .. } => {
+                for (_, src) in crate::corpus::accepted_repo_sources() {
+                    if let Some(c) = crate::gramsweep::case_from_source(&src) {
+                        // real runs need usize payloads and Debug derives: drop the file's own payload types and attributes
+                        let (gr, mut pres) = (c.g.clone(), c.pres.clone());
+                        pres.names.retain(|k, _| !(k.starts_with('p') || k.starts_with('a')));
+                        add_with(gr, pres, &mut out, &mut n);
+                    }
+                }
+            }
         }
         scopes.push(json!({"name": spec.name(), "size": n, "accepted_modules": out.len() - before, "completed": true, "exhaustive": true, "layer": "real code (rustc-compiled parse)"}));
     }
@@ -162,8 +175,14 @@ pub fn evaluate_module(property: &str, rc: &RealCase, obs: &std::collections::Ha
     }
     if let Some((w, m)) = hang {
         if property == "C01" {
-            acc.finding(Finding::new("real_case", case_with_word(rc, w, *m), format!("the real parse did not return within the time limit on {w:?}"), json!("termination"), json!("no return within 300 s")));
+            acc.finding(Finding::new("real_case", case_with_word(rc, w, *m), format!("the real parse does not terminate on {w:?} (no return within 300 s, or it exhausted a 3 GiB address space)"), json!("termination"), json!("no return within 300 s / memory exhausted")));
         }
+        acc.inc("modules whose real parse hangs or exhausts memory");
+        return;
+    }
+    if obs.is_empty() {
+        // not run (its batch could not be completed because of other modules): not observed, not judged
+        acc.inc("modules not observed");
         return;
     }
     let rf = match reference(&case.g) {
@@ -189,8 +208,10 @@ pub fn evaluate_module(property: &str, rc: &RealCase, obs: &std::collections::Ha
     };
     let model = bound.as_ref().map(|b| crate::pda::Model { case, b, start_nt: 0 });
     let mut reported = false;
-    let mut stack: Vec<Vec<u8>> = vec![vec![]];
-    while let Some(w) = stack.pop() {
+    // A word below which the real runner did not descend (its run never polled the input past the end of
+    // the word, so every extension has the very same outcome) passes its observations on to its extensions.
+    let mut stack: Vec<(Vec<u8>, Option<std::rc::Rc<[Option<Obs>; 3]>>)> = vec![(vec![], None)];
+    while let Some((w, inherited)) = stack.pop() {
         let res = drive(&case.g, &rf.lr1_tables, &w);
         // reference self-checks
         match (&res, earley_word(&a, &w)) {
@@ -206,7 +227,13 @@ pub fn evaluate_module(property: &str, rc: &RealCase, obs: &std::collections::Ha
             (ParseResult::Diverged, _) => acc.self_check_errors.push("reference self-check: reference driver diverged".to_string()),
             _ => {}
         }
-        if let (Some(m), Some(o)) = (&model, obs.get(&(w.clone(), 0))) {
+        let lookup = |mode: u8| -> Option<Obs> {
+            match &inherited {
+                Some(h) => h[mode as usize].clone(),
+                None => obs.get(&(w.clone(), mode)).cloned(),
+            }
+        };
+        if let (Some(m), Some(o), None) = (&model, obs.get(&(w.clone(), 0)), &inherited) {
             // model trace vs real observation (binding)
             let (step, at) = crate::pda::simulate(m, &w);
             let predicted = match step {
@@ -229,14 +256,19 @@ pub fn evaluate_module(property: &str, rc: &RealCase, obs: &std::collections::Ha
             }
         }
         for mode in 0..3u8 {
-            let Some(o) = obs.get(&(w.clone(), mode)) else {
+            let Some(o) = lookup(mode) else {
                 if !reported {
                     acc.self_check_errors.push(format!("missing real observation for {w:?} mode {mode} in a module without earlier mismatch"));
                     reported = true;
                 }
                 continue;
             };
-            acc.inc("real executions compared");
+            let o = &o;
+            if inherited.is_none() {
+                acc.inc("real executions compared");
+            } else {
+                acc.inc("extensions decided by an ancestor's run (the real parse never looked past the ancestor)");
+            }
             let konst = mode == 1;
             let (want_class, want_desc): (&str, String) = match &res {
                 ParseResult::Accept(tree) => ("OK", format!("OK {}", render_tree(case, tree, konst))),
@@ -304,10 +336,18 @@ pub fn evaluate_module(property: &str, rc: &RealCase, obs: &std::collections::Ha
         }
         let extend = !matches!(res, ParseResult::Reject(Some(_))) && w.len() < rc.depth;
         if extend {
+            // did the real runner descend below this word?
+            let pass_on = match &inherited {
+                Some(h) => Some(h.clone()),
+                None => match obs.get(&(w.clone(), 0)) {
+                    Some(o0) if o0.count <= w.len() => Some(std::rc::Rc::new([lookup(0), lookup(1), lookup(2)])),
+                    _ => None,
+                },
+            };
             for a in (0..case.g.t as u8).rev() {
                 let mut x = w.clone();
                 x.push(a);
-                stack.push(x);
+                stack.push((x, pass_on.clone()));
             }
         }
     }
